@@ -262,6 +262,12 @@ def gen_site(rng, boom_ok=False):
             lambda: f"{e}.hits[0].value + {v()} + {e}.hits[1].slice",
             lambda: f"[{j}.trk.attr + {e}.hit.ctx + {v()} for {j} in {e}.jets]",
         ]
+        # nested lambdas whose parameter is positional-only or a *args tuple
+        forms += [
+            lambda: f"{e}.jets.Select(lambda {j}, /: {j}.pt + {v()})",
+            lambda: f"{e}.jets.Where(lambda {j}, /: {j}.pt > {v()}).Count()",
+            lambda: f"{e}.jets.Select(lambda *{j}: {j}[0].pt * {v()})",
+        ]
         # a method called on a captured value (the receiver is a free variable like any other)
         forms += [
             lambda: f"{e}.a + {v()}.__abs__()",
@@ -607,7 +613,9 @@ def _flat_outcome(o):
 def free_names(node, bound=frozenset()):
     "Names read in an expression that no enclosing lambda or comprehension of it binds."
     if isinstance(node, ast.Lambda):
-        inner = bound | {a.arg for a in node.args.args}
+        a = node.args
+        inner = bound | {x.arg for x in a.posonlyargs + a.args + a.kwonlyargs} | {
+            x.arg for x in (a.vararg, a.kwarg) if x is not None}
         return free_names(node.body, inner)
     if isinstance(node, (ast.ListComp, ast.SetComp, ast.GeneratorExp, ast.DictComp)):
         out = set()
@@ -1128,7 +1136,7 @@ class Forest:
     def derive_site(self, parent, k):
         c = self.client
         site = self.cfg["sites"][k]
-        if not c.usable(k):
+        if not c.usable(k) and ("C04" not in self.oracles or site.get("boom")):
             self.stat("site_skipped_unbound")
             return
         self.last_op = "derive-site"
@@ -1137,6 +1145,24 @@ class Forest:
             # site's lambda by a designed type error; C04 sites start from untyped items
             parent = self.live[parent.root]
             self.stat("site_parent_replaced_by_root")
+        if not c.usable(k):
+            # invoked while one of its captured names has no value.  What the call does about
+            # THAT name the property leaves open (it may fail); if it returns a stream, every
+            # captured name that does have a value must still have been replaced
+            unbound = [n for n in site["free"] if not c.bound[n]]
+            new, ex = self.builder(lambda: c.fns[k][0](parent.stream))
+            self.stat("site_invoked_with_unbound_name")
+            self.ev("site_unbound", k, type(ex).__name__ if ex else "returned")
+            self.last_op = "failed-derive"
+            if ex is None and not c.blocked_by(k):
+                lam = new.query_ast.args[1]
+                allowed = {"sum", "len", "abs"} | {n.lstrip("@").split(".")[0] for n in unbound}
+                loose = free_names(lam) - allowed
+                if loose:
+                    raise Violation("C04/scope", {"site": site["lam"], "emitted": _safe_unparse(lam),
+                                                  "free_names_left_in_query": sorted(loose),
+                                                  "unbound_at_call": unbound})
+            return
         blocked = c.blocked_by(k)
         site_fn, ref_fn = c.fns[k][0], c.fns[k][1]
         if site.get("boom"):
